@@ -136,7 +136,7 @@ _add(
          "functional trace forms on 5-30 step histories. One evaluation = one step / view / dump / clear judged "
          "against the closed form over the recorded event list. distinct = (reducer, operation, first/later, record "
          "size class, inplace, observation kind, dt, events/quiet, view mode and grid position) abstractions.",
-    required=["steps_checked", "views_checked", "dumps_checked", "clears", "functional_steps_checked", "dt_reassignments", "nonfloat_observations", "views_with_tolerance", "observations_overwritten_by_the_caller_afterwards"],
+    required=["steps_checked", "views_checked", "dumps_checked", "clears", "functional_steps_checked", "dt_reassignments", "nonfloat_observations", "views_with_tolerance", "observations_overwritten_by_the_caller_afterwards", "observations_with_zero_contribution_events"],
     floor={"quick": 250, "thorough": 600},
     text="Held on every history explored: after each observation the value reported by the real reducer (run in "
          "float64) is compared with the closed-form sum over the recorded event list, views are compared with the value "
